@@ -113,7 +113,7 @@ theorem walkInv_local (hsw : sys.swap = false) (wf : sys.WF) (hnm : rq.mode ≠ 
     exact wi_same hi rfl (labsFrom_congr n rfl rfl rfl) rfl rfl (Nat.le_refl _) (fun _ => by rw [hpc]; rfl)
   case h3 hpc _ =>
     exact wi_same hi rfl (labsFrom_congr n rfl rfl rfl) rfl rfl (Nat.le_refl _) (fun _ => by rw [hpc]; rfl)
-  case h4poll hpc _ =>
+  case h4poll hpc _ _ =>
     exact wi_same hi rfl (labsFrom_congr n rfl rfl rfl) rfl rfl (Nat.le_refl _) (fun _ => by rw [hpc]; rfl)
   case h4stream _ hm _ => exact absurd hm hnm
   case h4sync _ hm _ => exact absurd hm hnm
@@ -288,6 +288,10 @@ theorem walkInv_shared [DecidableEq T] {sys : Sys K T R} {rq : Req K T R} {sh sh
       simp only [shFire, Option.some.injEq] at h; subst h
       exact ⟨hk, fun _ hp hkeys => ⟨hp, hkeys⟩, fun t v hw hm => ⟨t, hw, hm⟩⟩
     | w1Upd k0 v0 =>
+      simp only [shFire, Option.ite_none_right_eq_some, Option.some.injEq] at h
+      obtain ⟨_, rfl⟩ := h
+      exact ⟨hk, fun _ hp hkeys => ⟨hp, hkeys⟩, fun t v hw hm => ⟨t, hw, hm⟩⟩
+    | w1Quiet k0 v0 =>
       simp only [shFire, Option.ite_none_right_eq_some, Option.some.injEq] at h
       obtain ⟨_, rfl⟩ := h
       exact ⟨hk, fun _ hp hkeys => ⟨hp, hkeys⟩, fun t v hw hm => ⟨t, hw, hm⟩⟩
@@ -555,6 +559,18 @@ theorem heldInv_shared [DecidableEq T] {sys : Sys K T R} {rq : Req K T R} {sh sh
       simp only [shFire, Option.some.injEq] at h; subst h
       exact ⟨fun _ h => h, fun _ _ => Or.inl rfl, fun _ hp => Or.inl ⟨hp, rfl⟩⟩
     | w1Upd k0 v =>
+      simp only [shFire, Option.ite_none_right_eq_some, Option.some.injEq] at h
+      obtain ⟨_, rfl⟩ := h
+      refine ⟨fun x hx => List.mem_append_left _ hx, ?_, fun _ hp => Or.inl ⟨hp, rfl⟩⟩
+      intro k g
+      show setFn sh.val k0 (setFn (sh.val k0) (sh.gen k0) v) k g = _ ∨ _ ∈ b.held ++ [(k0, v)]
+      by_cases e : k = k0
+      · subst e
+        by_cases e' : g = sh.gen k
+        · subst e'; exact Or.inr (by simp [setFn])
+        · exact Or.inl (by simp [setFn, e'])
+      · exact Or.inl (by simp [setFn, e])
+    | w1Quiet k0 v =>
       simp only [shFire, Option.ite_none_right_eq_some, Option.some.injEq] at h
       obtain ⟨_, rfl⟩ := h
       refine ⟨fun x hx => List.mem_append_left _ hx, ?_, fun _ hp => Or.inl ⟨hp, rfl⟩⟩
